@@ -34,9 +34,17 @@ def run(ctx):
     ctx.proofs(['C02'])
     q = ctx.quick
     rng = ctx.rng
-    recs = reportfam.standard(ctx, 250 if q else 4000, parts=('status', 'items'))
+    # findings of the general section together: a protocol-1.x banner (failure) AND a banner with non-printable characters (warning), over algorithm lists
+    # that add nothing worse (clean, warning-only) - the failure must survive the warning that is recorded after it
+    gg = inproc.Gen(rng)
+    general = []
+    for b in ('SSH-1.99-OpenSSH_8.9 caf\u00e9', 'SSH-1.99-dropbear_0.52 \x07', 'SSH-1.5-OpenSSH_2.3.0 \x7f', 'SSH-2.0-OpenSSH_8.9 caf\u00e9', 'SSH-1.99-OpenSSH_5.3'):
+        for mix in ('clean', 'warn'):
+            general.append({'banner': b, 'kex': ['sntrup761x25519-sha512@openssh.com'] if mix == 'clean' else ['curve25519-sha256'], 'key': ['ssh-ed25519'],
+                            'enc': ['aes256-gcm@openssh.com'] if mix == 'clean' else ['aes256-ctr'], 'mac': ['hmac-sha2-512-etm@openssh.com'], 'client_audit': False})
+    recs = reportfam.standard(ctx, 250 if q else 4000, parts=('status', 'items'), peers=[gg.peer() for _ in range(250 if q else 4000)] + general)
     # end to end (real command line over TCP, server audits and -c client audits): the process exit status against the printed report
-    recs += reportfam.cli_records(ctx, [r['peer'] for r in rng.sample(recs, min(len(recs), 16 if q else 300))], parts=('status', 'items'))
+    recs += reportfam.cli_records(ctx, [r['peer'] for r in rng.sample(recs, min(len(recs), 16 if q else 300))] + general[:4], parts=('status', 'items'))
     nontriv = set()
     # oracle 1 (in-process): return value of output() == worst tag in the printed report, under every option set
     for r in recs:
